@@ -17,7 +17,7 @@ def gen(tier, rng, shard, nshards):
         case = {"n": n, "dt": dt, "normal": bool(rng.random() < 0.4), "seed": S.seed(rng), "cols": int(S.pick(rng, [0, 1, 3])),
                 "rhs": S.pick(rng, ["generic", "generic", "eigvec", "few-eigvecs"]), "x0": S.pick(rng, ["none", "none", "zero", "random"]),
                 "tol": float(S.pick(rng, [1e-12, 1e-12, 1e-8, 1e-6])), "via": S.pick(rng, ["gmres", "gmres", "inv"]),
-                "ms": S.pick(rng, ["sweep", "sweep", "beyond"])}
+                "ms": S.pick(rng, ["sweep", "sweep", "beyond"]), "wide_rhs": bool(rng.random() < 0.2)}
         if rng.random() < 0.15:
             # right-hand-side columns living in two invariant subspaces on which the operator acts at very different scales
             # (every column sees one scale only, but the columns of one call see different ones)
@@ -128,6 +128,8 @@ def build(case):
         if not cplx:
             b = b.real
     b = b.astype(P.DT[dt])
+    if not cplx and case.get("wide_rhs") and case["rhs"] == "generic":
+        b = (b + 1j * rng.standard_normal(b.shape)).astype(np.complex128)  # complex right-hand side for a real operator
     if case["cols"] == 0:
         b = b[:, 0]
     if case["x0"] == "none":
@@ -180,7 +182,7 @@ def run_case(ctx, case):
     M, b, x0, degree = build(case)
     n = M.shape[0]
     cplx = np.iscomplexobj(M)
-    wide = complex if cplx else float
+    wide = complex if (cplx or np.iscomplexobj(b) or (x0 is not None and np.iscomplexobj(x0))) else float
     Mw = M.astype(wide)
     kappa = float(np.linalg.cond(Mw))
     # (the scale-separated family needs a scale ratio >= 1e2 by construction: its regime is kappa <= 1e3 with n <= 8)
